@@ -66,6 +66,9 @@ def sweep_scenarios(quick, seed):
     # save / load of entries that never expire / are never due, into a cache whose clock moves between any two readings (C19)
     for k, jump in enumerate((0, 1000, 3 * TICK)):
         out.append({"ttl": 0, "jump": jump, "later": 0, "op": "persist.step", "sized": k % 2, "syncexec": 1, "warm": 0, "max": 0})
+    # readers parked between reserving and publishing their slot of the read buffer, across InvalidateAll and a maintenance run (C17)
+    for k in range(4):
+        out.append({"ttl": 0, "jump": 0, "later": 0, "op": "rb.clear", "sized": k % 2, "syncexec": 0, "warm": k // 2, "max": 0})
     # stale-node eviction while a load of the key is in flight (C08)
     for op in ("ld.staleevict.inv", "ld.staleevict.set"):
         out.append({"ttl": 0, "jump": 0, "later": 0, "op": op, "sized": 1, "syncexec": 0, "warm": 0, "max": 0})
@@ -98,7 +101,7 @@ def sweep_scenarios(quick, seed):
 
 
 def sc_is_foreign(sc):
-    return sc["op"].startswith(("ld.", "persist."))
+    return sc["op"].startswith(("ld.", "persist.", "rb."))
 
 
 def expire_race_cfg(readers, nreads, ttl, maxclock, nsweeps, sized, resurrect, writer="", reread=False):
@@ -160,6 +163,8 @@ def read_race_half(prop, tier, mc_out=None):
         scs = [sc for sc in sweep_scenarios(False, seed) if sc["op"].startswith("sia.") or sc["op"] == "gate.size"]
     elif prop == "C08":
         scs = [sc for sc in sweep_scenarios(False, seed) if sc["op"].startswith("ld.")]
+    elif prop == "C17":
+        scs = [sc for sc in sweep_scenarios(False, seed) if sc["op"].startswith("rb.")]
     elif prop == "C19":
         scs = [sc for sc in sweep_scenarios(False, seed) if sc["op"].startswith("persist.")]
     elif prop == "C20":
@@ -338,7 +343,7 @@ def run(prop, tier, replay=None):
                     total = sc["jump"] + sc["later"]
                     r["mustsweep"] = 1 if (total - sc["ttl"] > TICK and sc["later"] > TICK) else 0
                     r["deadlinepassed"] = 1 if sc["ttl"] <= total else 0
-                    if sc["op"].startswith(("mass.", "ld.", "persist.")):
+                    if sc["op"].startswith(("mass.", "ld.", "persist.", "rb.")):
                         r["mustsweep"], r["deadlinepassed"] = 0, 1
                     if sc["op"].startswith("late."):
                         r["mustsweep"], r["deadlinepassed"] = 1, 1
